@@ -93,9 +93,12 @@ PNAMES = ['x', 'y', 'z', 'w']
 
 def run_prefix(toks):
     """Results of the 2 translators on the 2 back ends."""
+    return run_prefix_str(H.tok_str(toks))
+
+
+def run_prefix_str(s):
     import omega.symbolic.bdd as sym_bdd
     import omega.symbolic.bdd_iterative as sym_iter
-    s = H.tok_str(toks)
     res = {}
     for b, mod in H.BACKENDS.items():
         bdd = mod.BDD()
@@ -173,14 +176,23 @@ class Runner:
 
     def declare(self, k, decl):
         c = self.ctx[k]
+        before = {n: (c.vars[n]['type'], c.vars[n].get('dom'))
+                  for n in decl if n in c.vars}
         try:
             if k == 0:
                 c.declare_variables(**decl)
             else:
                 c.declare(**decl)
-            return ('Done',)
         except ValueError:
             return ('Refused',)
+        for n, (t, dom) in before.items():
+            want = ('bool', None) if decl[n] == 'bool' else \
+                ('int', tuple(decl[n]))
+            if (t, None if dom is None else tuple(dom)) != want:
+                self.notes.append((
+                    'a declaration that changes the type hint of a declared '
+                    'identifier was accepted', {n: decl[n]}))
+        return ('Done',)
 
     def run(self, op):
         r = self._run(op)
@@ -571,6 +583,7 @@ class CacheRun:
         self.live = {}            # mirror: uid(int) -> table
         self.held = []            # nodes the "user" keeps
         self.notes = []
+        self.stale_caught = 0
         aut = self.aut
         orig_add = aut._add_expr
         self.addlog = []
@@ -649,7 +662,10 @@ class CacheRun:
         self.addlog.clear()
         # the user holds u: it is live
         self.reconcile(self.uid(u), self.table(u))
+        had = str(u) in aut._bdd_to_expr
         r = aut._fetch_expr(u)
+        if had and r is None:
+            self.stale_caught += 1
         fresh = 0
         if self.addlog:
             (e, u2), = self.addlog
@@ -700,9 +716,9 @@ class CacheRun:
         self.addlog.clear()
 
 
-def cache_exprs(rng, names):
+def cache_exprs(rng, names, n=12):
     out = []
-    while len(out) < 12:
+    while len(out) < n:
         f = H.rand_form(rng, names, [], rng.randint(0, 2))
         e = H.render(f)
         if e not in out:
@@ -737,6 +753,19 @@ def gen_cache_ops(rng, n):
             ops.append(('fetch', rng.randrange(1000)))
         else:
             ops.append(('print',))
+    return ops
+
+
+def hunt_ops(rng):
+    """Scenario for identifier re-use: cache four expressions, drop every
+    reference, collect, create and hold many nodes, fetch them all."""
+    slots = [(k, w) for k in ('env', 'sys') for w in ('init', 'action')]
+    m = rng.randint(24, 34)
+    picks = rng.sample(range(45), m + 4)
+    ops = [('cache', k, w, picks[i]) for i, (k, w) in enumerate(slots)]
+    ops += [('drop', k, w) for k, w in slots] + [('gc',)]
+    ops += [('alloc', j, True) for j in picks[4:]]
+    ops += [('fetch', j) for j in range(m)]
     return ops
 
 
@@ -870,7 +899,7 @@ def correspond(ctx):
     # (C) expression cache
     n_cache = 60 if thorough else 12
     cache_cases = []
-    n_fetch = n_fetch_some = n_collect = 0
+    n_fetch = n_fetch_some = n_collect = n_stale = 0
     for i in range(n_cache):
         decl = dict(x=(0, 3), y=(0, 3), z=(0, 1))
         exprs = cache_exprs(rng, sorted(decl))
@@ -891,12 +920,42 @@ def correspond(ctx):
             n_fetch += sum(1 for e in cr.events if e.startswith('EFetch'))
             n_fetch_some += sum(1 for r, _ in cr.expected if r is not None)
             n_collect += sum(1 for e in cr.events if e.startswith('ECollect'))
+            n_stale += cr.stale_caught
             groups.append(cache_group(i, j, cr))
             meta.append(('cache', len(cache_cases), cfg))
             cache_cases.append(dict(ops=ops, exprs=exprs, config=list(cfg)))
             cr.close()
             del cr
         gc.collect()
+    # identifier re-use happens on dd.autoref (freed indices are handed out
+    # again); many small scenarios make it occur on every run
+    n_hunt = 500 if thorough else 110
+    for i in range(n_hunt):
+        decl = dict(x=(0, 3), y=(0, 3), z=(0, 1))
+        exprs = cache_exprs(rng, sorted(decl), 45)
+        ops = hunt_ops(rng)
+        cfg = ('autoref', 'recursive' if i % 2 else 'iterative')
+        try:
+            cr = run_cache(ops, exprs, cfg[0], cfg[1], decl)
+        except Exception as e:
+            mism.append(Mismatch(
+                f'cache sequence raised on {cfg}: {e!r}',
+                dict(ops=ops, exprs=exprs, config=list(cfg)),
+                property_fails=True))
+            continue
+        for note in cr.notes:
+            mism.append(Mismatch(note[0], dict(
+                ops=ops, exprs=exprs, config=list(cfg), expr=note[1]),
+                property_fails=True))
+        n_fetch += sum(1 for e in cr.events if e.startswith('EFetch'))
+        n_fetch_some += sum(1 for r, _ in cr.expected if r is not None)
+        n_collect += sum(1 for e in cr.events if e.startswith('ECollect'))
+        n_stale += cr.stale_caught
+        groups.append(cache_group(n_cache + i, 0, cr))
+        meta.append(('cache', len(cache_cases), cfg))
+        cache_cases.append(dict(ops=ops, exprs=exprs, config=list(cfg)))
+        cr.close()
+        del cr
     res = ctx.eval_groups('corr', HEADER, groups, shard=150)
     assert len(res) == len(meta), (len(res), len(meta))
     for ok, (kind, i, w) in zip(res, meta):
@@ -954,6 +1013,7 @@ def correspond(ctx):
         cache_runs=len(cache_cases), fetches=n_fetch,
         fetches_returning_expression=n_fetch_some,
         collections_reconstructed=n_collect,
+        stale_cache_entries_met=n_stale, reuse_hunts=n_hunt,
         comparisons=len(res), mismatches=len(mism),
         differential_only=['dd.autoref vs dd.cudd', 'reorder',
                            'collect_garbage'])
@@ -1133,6 +1193,12 @@ def replay(path):
         print('passes')
         return 0
     if 'tokens' in case:
-        print('re-run: the two translators on', case['tokens'])
-        return 2
+        res = run_prefix_str(case['tokens'])
+        vals = list(res.values())
+        if any(v != vals[0] for v in vals):
+            print('still fails: translators / back ends disagree:',
+                  {f'{b}/{t}': v for (b, t), v in res.items()})
+            return 1
+        print('passes')
+        return 0
     return 2
